@@ -25,7 +25,7 @@ theorem DEnd.client_err (s0 : Nat) : ∀ a ∈ clErr s0, DEnd.Kept a := by
   all_goals (try (simp at hg; done))
   all_goals (repeat' split)
   all_goals (intro he hm hF)
-  all_goals (first | (cases hm; done) | (obtain ⟨k1, k2, k3, k4, k5, k6, k7, k8, k9, k10, k11, k12, k13⟩ := hU _ he hm))
+  all_goals (first | (cases hm; done) | (obtain ⟨k1, k2, k3, k4, k5, k6, k7, k8, k9, k10, k11, k12, k13, k14⟩ := hU _ he hm))
   all_goals (first | (obtain ⟨d1, d2, d3, d4⟩ := hL _ he hm))
   all_goals (first | (obtain ⟨i1, i2, i3, i3', i4, i4', i5, i6, i7⟩ := hI _ he hm hF))
   all_goals (first | (obtain ⟨e1, e2, e2a, e3, e3a, e3b, e4, e5, e6, e7, e8, w2, w4, w5, w6, w8, wa, e10, e10a, e10b, e11, e12⟩ := h _ he hm hF))
